@@ -177,14 +177,25 @@ func runLimitsWorld(rc *RunCtx) *Outcome {
 	ref := RefInterpret(refBytes, "", conn)
 
 	var obs streamObs
+	pulled, overCap := 0, false
 	if entry == "Read" {
 		var cfg *sse.ReadConfig
 		if limit > 0 {
 			cfg = &sse.ReadConfig{MaxEventSize: limit}
 		}
-		obs = runRead(g, cfg, -1)
+		var between func()
+		if ch.Chance(1, 3, "second loop over the sequence") {
+			// the bounds below are about the first loop: take the counters when it has ended
+			between = func() { pulled, overCap = g.pulled, g.overCap }
+			o.probe("Read sequence ranged over twice")
+		}
+		obs = runReadAgain(g, cfg, -1, between)
+		if between == nil || pulled == 0 && !overCap {
+			pulled, overCap = g.pulled, g.overCap // between was not reached (the first loop panicked)
+		}
 	} else {
 		obs, _ = runConn(g, buf, limit)
+		pulled, overCap = g.pulled, g.overCap
 	}
 	if obs.panicked != nil {
 		o.violate("C20", "panic", "%s: panic %v", desc, obs.panicked)
@@ -201,17 +212,17 @@ func runLimitsWorld(rc *RunCtx) *Outcome {
 		lastEnd = ref.End[n-1]
 	}
 	slack := 8
-	if g.overCap {
-		o.violate("C20", "unbounded-read", "%s: the parser kept reading an endless stream: %d bytes pulled without an error (limit %d)", desc, g.pulled, effective)
+	if overCap {
+		o.violate("C20", "unbounded-read", "%s: the parser kept reading an endless stream: %d bytes pulled without an error (limit %d)", desc, pulled, effective)
 		return o
 	}
 	tooLong := obs.err != nil && strings.Contains(obs.err.Error(), "token too long")
-	if obs.err != nil && g.pulled-lastEnd > effective+slack {
-		o.violate("C20", "read-beyond-limit", "%s: %d bytes were pulled beyond the last completed event (ending at offset %d) before the error %v; limit %d", desc, g.pulled-lastEnd, lastEnd, obs.err, effective)
+	if obs.err != nil && pulled-lastEnd > effective+slack {
+		o.violate("C20", "read-beyond-limit", "%s: %d bytes were pulled beyond the last completed event (ending at offset %d) before the error %v; limit %d", desc, pulled-lastEnd, lastEnd, obs.err, effective)
 		return o
 	}
 	if endless && obs.err == nil {
-		o.violate("C20", "endless-without-error", "%s: an endless stream ended without an error after %d bytes", desc, g.pulled)
+		o.violate("C20", "endless-without-error", "%s: an endless stream ended without an error after %d bytes", desc, pulled)
 		return o
 	}
 	// intact below the limit
